@@ -312,6 +312,11 @@ type boolOutcome struct {
 }
 
 func boolTable(f *ssa.Function, atoms []atomPred, event func(ssa.Instruction) bool) (map[int]boolOutcome, bool) {
+	return boolTableFrom(f, nil, atoms, event)
+}
+
+// boolTableFrom: the table over the paths that start right after `start` (nil: function entry).
+func boolTableFrom(f *ssa.Function, start ssa.Instruction, atoms []atomPred, event func(ssa.Instruction) bool) (map[int]boolOutcome, bool) {
 	out := map[int]boolOutcome{}
 	ok := true
 	n := len(atoms)
@@ -365,6 +370,7 @@ func boolTable(f *ssa.Function, atoms []atomPred, event func(ssa.Instruction) bo
 		}
 		res := boolOutcome{all: true}
 		budget := 20000
+		startDone := false
 		type key struct {
 			b, p *ssa.BasicBlock
 			seen bool
@@ -422,7 +428,15 @@ func boolTable(f *ssa.Function, atoms []atomPred, event func(ssa.Instruction) bo
 					}
 				}
 			}
+			skip := start != nil && pred == nil && b == start.Block() && !startDone
 			for _, in := range b.Instrs {
+				if skip {
+					if in == start {
+						skip = false
+						startDone = true
+					}
+					continue
+				}
 				if event(in) {
 					seen = true
 				}
@@ -472,7 +486,9 @@ func boolTable(f *ssa.Function, atoms []atomPred, event func(ssa.Instruction) bo
 				walk(s, b, seen, np)
 			}
 		}
-		if len(f.Blocks) > 0 {
+		if start != nil {
+			walk(start.Block(), nil, false, nil)
+		} else if len(f.Blocks) > 0 {
 			walk(f.Blocks[0], nil, false, nil)
 		}
 		if res.paths == 0 {
